@@ -183,6 +183,20 @@ Theorem C18_type_viable_prefix_partial : forall fuel u t rest,
 Proof. exact type_viable_prefix. Qed.
 Print Assumptions C18_type_viable_prefix_partial.
 
+(* The first half for the executable definitions: whatever the recogniser of an operation, a
+   fragment definition or a selection set (with fields, aliases, arguments, directives, fragment
+   spreads, inline fragments, variable definitions, nested to any depth) had consumed when it
+   stopped at token t begins a derivable one -- the completion is constructed in the proof
+   (Proofs/SynErrLang.v: languages of the recogniser's combinators; Proofs/SynErrViableAll.v).
+   The type-system definitions and the document level are not covered by this theorem. *)
+From GQL Require Import Proofs.SynErrLang Proofs.SynErrViableAll.
+Theorem C18_executable_viable_prefix_partial : forall f,
+  (forall u t rest, parse_operationE f (u ++ t :: rest) = ErrE (t :: rest) -> exists cont o, DOperation (u ++ cont) o) /\
+  (forall u t rest, parse_fragment_definitionE f (u ++ t :: rest) = ErrE (t :: rest) -> exists cont d, DFragment (u ++ cont) d) /\
+  (forall u t rest, parse_selsetE f (u ++ t :: rest) = ErrE (t :: rest) -> exists cont ss, DSelSet (u ++ cont) ss).
+Proof. exact executable_viable_prefix. Qed.
+Print Assumptions C18_executable_viable_prefix_partial.
+
 From Coq Require Import String.
 (* non-vacuity: a parser report, a lexer report, a required non-empty list, and a witness *)
 Example C18_syntax_nonvacuous :
